@@ -176,13 +176,18 @@ class Run:
             return False, "", None, None
         script = os.path.join(VERIF, "replays", rp["script"])
         args = [str(a) for a in rp.get("args", [])]
+        cache = self.__dict__.setdefault("_replay_cache", {})
+        ck = (script, tuple(args))
+        if ck in cache:
+            return cache[ck] + (script, args)
         env = dict(os.environ)
         env["PYTHONPATH"] = SRC
         try:
             p = subprocess.run([NATIVE_PY, script] + args, capture_output=True, text=True,
                                timeout=rp.get("timeout", 300), env=env)
             out = p.stdout + p.stderr
-            return (p.returncode == 1 and "REPRODUCED" in p.stdout), out, script, args
+            cache[ck] = ((p.returncode == 1 and "REPRODUCED" in p.stdout), out)
+            return cache[ck] + (script, args)
         except subprocess.TimeoutExpired:
             return False, "native replay timed out", script, args
 
